@@ -10,6 +10,7 @@
 (*  {op:"rt", cls, b, accepted, reser}   any class: canonical round trip   *)
 (*  {op:"obj", cls, b, same, reser}      parse(serialize(x)) == x          *)
 (*  {op:"json", cls, a, b}               from_dict(json(to_dict(x)))       *)
+(*  {op:"big", cls, what, n, built, parsed, same}  count boundaries        *)
 (*  {op:"psbt", b, accepted, reser, reser2}  fixed point keeping every kv  *)
 (***************************************************************************)
 EXTENDS WireMore, EvBase
@@ -46,6 +47,8 @@ Verdict(e) ==
       [] e.op = "rt"   -> [canon |-> e.accepted => e.reser = e.b]
       [] e.op = "obj"  -> [same |-> e.same, canon |-> e.reser = e.b]
       [] e.op = "json" -> [same |-> e.a = e.b]
+      \* an object at a count boundary (too large to carry as bytes): what was built and written parses back to an equal object
+      [] e.op = "big"  -> [parses |-> e.built => e.parsed, same |-> e.built => e.same]
       [] e.op = "psbt" -> [keeps |-> e.accepted => SameKV(FromHex(e.b), FromHex(e.reser)),
                            fixed |-> e.accepted => e.reser2 = e.reser]
 
